@@ -1,4 +1,5 @@
 import Bw.Pipeline
+import Bw.ListReport
 import Bw.Lemmas.TreeWalk
 import Bw.Lemmas.NormShape
 /-! # C03 — blocks are exactly the tag pairs written in comments
@@ -222,5 +223,94 @@ theorem walk_resumes_in_document_order {α : Type} (fuel : Nat) (st : List (List
 /-- non-vacuity: a comment nested three levels deep after a childless sibling is reached -/
 example : TreeWalk.walk (.node "root" [.node "a" [], .node "b" [.node "string" [.node "interp" [.node "comment" []]]], .node "c" []])
     = ["root", "a", "b", "string", "interp", "comment", "c"] := by decide
+
+/-! ### `blockwatch list` (`to_serializable_report`, model `Bw.ListReport`) -/
+open Bw.ListReport Bw.Pipe Bw.Diff
+
+def LineSorted : List Entry → Prop
+  | [] => True
+  | [_] => True
+  | a :: b :: rest => a.line ≤ b.line ∧ LineSorted (b :: rest)
+
+theorem lineSorted_tail {a : Entry} {l : List Entry} (h : LineSorted (a :: l)) : LineSorted l := by
+  cases l with
+  | nil => trivial
+  | cons b rest => exact h.2
+
+/-- a stable sort leaves a list alone that is already in order -/
+theorem sortByLine_of_sorted (l : List Entry) (h : LineSorted l) : sortByLine l = l := by
+  induction l with
+  | nil => rfl
+  | cons a l ih =>
+    simp only [sortByLine, ih (lineSorted_tail h)]
+    cases l with
+    | nil => rfl
+    | cons b rest => simp only [insertByLine, h.1, if_true]
+
+theorem lineSorted_of_blocks (bs : List BlockCtx) (h : Sorted (bs.map (·.block))) :
+    LineSorted (bs.map entryOf) := by
+  induction bs with
+  | nil => trivial
+  | cons a bs ih =>
+    cases bs with
+    | nil => trivial
+    | cons b rest =>
+      simp only [List.map_cons, Sorted] at h
+      refine ⟨?_, ih h.2⟩
+      have := h.1
+      simp only [entryOf, Pos.lt, Bool.or_eq_true, decide_eq_true_eq, Bool.and_eq_true, beq_iff_eq, not_or, not_and] at this ⊢
+      omega
+
+/-- selecting blocks keeps them in order -/
+theorem sorted_filterMap (bs : List Block) (f : Block → Option BlockCtx) (hf : ∀ b c, f b = some c → c.block = b)
+    (h : Sorted bs) : Sorted ((bs.filterMap f).map (·.block)) := by
+  induction bs with
+  | nil => trivial
+  | cons a bs ih =>
+    have iht := ih (sorted_tail h)
+    simp only [List.filterMap_cons]
+    cases hfa : f a with
+    | none => exact iht
+    | some c =>
+      simp only [List.map_cons, hf a c hfa]
+      -- `a` is not after any later block
+      have hall : ∀ x ∈ bs, ¬ x.tagStart.lt a.tagStart = true := by
+        clear iht ih hfa
+        induction bs generalizing a with
+        | nil => intro x hx; cases hx
+        | cons b rest ihr =>
+          intro x hx
+          rcases List.mem_cons.1 hx with rfl | hx
+          · exact h.1
+          · have hb := ihr (a := b) h.2 x hx
+            exact Pos.lt_trans_not h.1 hb
+      cases hrest : (bs.filterMap f).map (·.block) with
+      | nil => trivial
+      | cons y ys =>
+        rw [hrest] at iht
+        refine ⟨?_, iht⟩
+        have hy : y ∈ (bs.filterMap f).map (·.block) := by rw [hrest]; exact List.mem_cons_self ..
+        obtain ⟨c', hc', rfl⟩ := List.mem_map.1 hy
+        obtain ⟨b', hb', hfb⟩ := List.mem_filterMap.1 hc'
+        rw [hf b' c' hfb]
+        exact hall b' hb'
+
+/-- **`list` prints the selected blocks of a file in source order**: for blocks sorted by the position of their `<`
+    (what `parse_blocks_from_comments` returns, `C03.sortBlocks_sorted`) the stable sort by line changes nothing -/
+theorem fileReport_source_order (path text : Text) (bs : List Block) (changes : List LC) (all : Bool)
+    (h : Sorted bs) :
+    fileReport ⟨path, text, selectBlocks bs changes all⟩ = (selectBlocks bs changes all).map entryOf := by
+  unfold fileReport
+  apply sortByLine_of_sorted
+  apply lineSorted_of_blocks
+  unfold selectBlocks
+  apply sorted_filterMap _ _ _ h
+  intro b c hc
+  simp only at hc
+  split at hc
+  · injection hc with hc; rw [← hc]
+  · cases hc
+
+
 
 end Bw.Props.C03
